@@ -16,7 +16,9 @@ META = {
             "tree shape; for a node with at most one child the unlinking step of delete removes exactly that key (lookups = finite-map delete); the full "
             "refinement statement for delete is proved FALSE of the pinned code on a concrete witness (two-child node) which the check replays on the real runtime. What ties the real runtime to the "
             "models is a correspondence run: generated single-source programs (long random histories for int, int64, uint32, uint8, string, float64, "
-            "bool, struct, pointer and interface keys) run under Wa, under Go's native map and through the Lean transcription (exact iteration order), "
+            "bool, struct, pointer and interface keys; and for every ELEMENT type that compiles — ints, string, bool, float64, struct, pointer, interface, error, "
+            "slice, nested map, func — a fixed history that stores the element type's ZERO value, overwrites non-zero with zero and back, then comma-ok / "
+            "lookup / len / range / delete) run under Wa, under Go's native map and through the Lean transcription (exact iteration order), "
             "with the property itself evaluated on Wa's output against a Python dict. NOT proved: red-black colour/black-height balance, and the end-to-end "
             "composition update/delete = spec step on the store level (the pieces above are proved separately); these are MONITORED: a decidable predicate "
             "(BST order, parent/child and slot consistency, colours, black height, slot list = spec state) is evaluated by the model driver after every "
@@ -65,11 +67,22 @@ class Kind:
         assert all((self.rank[i] == self.rank[j]) == (self.canon[i] == self.canon[j])
                    for i in range(self.n) for j in (self.canon[i], 0, self.n - 1)), self.name
 
+    elem = None      # element-type description (ELEMS) when the map's element type is under test
+
+    def setval(self, o, i):
+        """abstract value stored by op `o` at program index i: the op index (int / string elements), or the index
+        into the value table VV of an element kind ('z' stores VV[0], the ZERO value of the element type)"""
+        if self.elem:
+            return 0 if o == "z" else 1 + i % (self.elem["nv"] - 1)
+        return i
+
     def val(self, vi):
+        if self.elem:
+            return str(vi)
         return str(vi) if self.vtype == "int" else VS[vi % len(VS)]
 
     def zero(self):
-        return "0" if self.vtype == "int" else ""
+        return "0" if self.vtype == "int" or self.elem else ""
 
 
 def golit_int(v, t):
@@ -218,6 +231,82 @@ def make_kind(name, rng, n):
     raise ValueError(name)
 
 
+
+# ----------------------------------------------------------------------------- element types
+# `@` is replaced by a per-section suffix so that several sections fit in one program.
+# VV@[0] is never assigned: it is the ZERO value of the element type; VV@[1..] are pairwise distinct non-zero-table
+# entries (some of them "zero-like": 0 / "" / false boxed in an interface, an empty non-nil slice).
+# vid@(v) names a value by its index in VV@ (that is what the program prints).
+_CMP = "\tfor i := 0; i < len(VV@); i++ {\n\t\tif VV@[i] == v {\n\t\t\treturn i\n\t\t}\n\t}\n\treturn -1\n"
+ELEMS = {
+    "int": dict(vt="int", decls="", init=["VV@[%d] = %d" % (i, i * 7 - 9) for i in range(1, 6)], vid=_CMP),
+    "int64": dict(vt="int64", decls="", init=["VV@[%d] = %d" % (i, (1 << 40) * (i - 3) + i) for i in range(1, 6)], vid=_CMP),
+    "uint8": dict(vt="uint8", decls="", init=["VV@[%d] = %d" % (i, 255 - i) for i in range(1, 6)], vid=_CMP),
+    "string": dict(vt="string", decls="", init=["VV@[1] = \"a\"", "VV@[2] = \"\\x00\"", "VV@[3] = \"zz\"", "VV@[4] = \" \"", "VV@[5] = \"0\""], vid=_CMP),
+    "bool": dict(vt="bool", decls="", init=["VV@[1] = true"], vid=_CMP, nv=2),
+    "float64": dict(vt="float64", decls="", init=["VV@[1] = 0.5", "VV@[2] = 1e300", "VV@[3] = -2.5", "VV@[4] = 1", "VV@[5] = -1e-300"], vid=_CMP),
+    "struct": dict(vt="SV@", decls="type SV@ struct {\n\ta int\n\tb string\n\tp *PT@\n}\n\ntype PT@ struct {\n\tv int\n}\n\nvar PV@ [6]PT@\n",
+                   init=["VV@[1] = SV@{1, \"\", nil}", "VV@[2] = SV@{0, \"x\", nil}", "VV@[3] = SV@{0, \"\", &PV@[0]}", "VV@[4] = SV@{2, \"y\", &PV@[1]}",
+                         "VV@[5] = SV@{-1, \"\", nil}"], vid=_CMP),
+    "pointer": dict(vt="*PT@", decls="type PT@ struct {\n\tv int\n}\n\nvar PV@ [6]PT@\n", init=["VV@[%d] = &PV@[%d]" % (i, i) for i in range(1, 6)], vid=_CMP),
+    "iface": dict(vt="interface{}", decls="type PT@ struct {\n\tv int\n}\n\nvar PV@ [6]PT@\n",
+                  init=["VV@[1] = 0", "VV@[2] = \"\"", "VV@[3] = false", "VV@[4] = &PV@[0]", "VV@[5] = 7"], vid=_CMP),
+    "error": dict(vt="error", decls="type ER@ struct {\n\tc int\n}\n\nfunc (e *ER@) Error() string {\n\treturn \"e\"\n}\n\nvar EV@ [6]ER@\n",
+                  init=["VV@[%d] = &EV@[%d]" % (i, i) for i in range(1, 6)], vid=_CMP),
+    "slice": dict(vt="VT@", decls="type VT@ []int\n", init=["VV@[%d] = make(VT@, %d)" % (i, i - 1) for i in range(1, 6)],
+                  vid="\tif v == nil {\n\t\treturn 0\n\t}\n\treturn len(v) + 1\n"),
+    "map": dict(vt="VT@", decls="type VT@ map[int]int\n", init=["VV@[%d] = make(VT@)" % i for i in range(1, 6)] +
+                ["VV@[%d][%d] = 1" % (i, j) for i in range(1, 6) for j in range(i)], vid="\treturn len(v)\n"),
+    "func": dict(vt="func() int", decls="".join("func fn%d@() int {\n\treturn %d\n}\n\n" % (i, i) for i in range(1, 6)),
+                 init=["VV@[%d] = fn%d@" % (i, i) for i in range(1, 6)], vid="\tif v == nil {\n\t\treturn 0\n\t}\n\treturn v()\n"),
+    # (array element types are left out: `map[int][2]int` does not compile — logger.Fatal in wir/value_struct.go emitCompare,
+    #  a compiler limitation outside the map runtime)
+}
+
+
+def make_elem_kind(ename, rng, keys="int"):
+    """map[<keys>]<element type ename>: a small key universe, values from the table VV (VV[0] = zero value)"""
+    base = make_kind(keys, rng, 40)
+    k = Kind("elem-%s%s" % (ename, "" if keys == "int" else "-" + keys), base.ktype, base.decls, base.init, base.eq, base.rk, vtype="elem")
+    k.elem = dict(ELEMS[ename])
+    k.elem.setdefault("nv", 6)
+    k.elem["name"] = ename
+    return k
+
+
+def elem_history(kind, rng, nrand):
+    """deterministic part: store the ZERO value, overwrite non-zero with zero and zero with non-zero, then comma-ok /
+    plain lookup / len / range / delete around each; then a random tail in which a third of the stores are zero stores"""
+    ks = list(range(0, 12))
+    ops = []
+    for rep, (a, b, c, d) in enumerate([(ks[0], ks[1], ks[2], ks[3]), (ks[7], ks[5], ks[6], ks[4])]):
+        ops += [("z", a), ("c", a), ("g", a), ("l", 0), ("r", 0),                 # zero stored under a new key
+                ("s", b), ("c", b), ("z", b), ("c", b), ("g", b), ("l", 0), ("r", 0),   # non-zero overwritten with zero
+                ("z", c), ("s", c), ("c", c), ("z", c), ("z", c), ("c", c), ("l", 0),   # zero -> non-zero -> zero -> zero
+                ("c", d), ("g", d),                                               # absent key
+                ("d", a), ("c", a), ("l", 0), ("r", 0),                           # delete a key holding zero
+                ("d", a), ("z", a), ("c", a), ("d", b), ("c", b), ("l", 0), ("r", 0)]
+        if rep == 0:
+            ops += [("z", k) for k in ks[4:10]] + [("c", k) for k in ks[4:10]] + [("r", 0)] + [("d", k) for k in ks[4:10:2]] + [("c", k) for k in ks[4:10]]
+    present = set()
+    for _ in range(nrand):
+        r = rng.random()
+        k = rng.randrange(kind.n)
+        if r < 0.2:
+            ops.append(("z", k))
+        elif r < 0.45:
+            ops.append(("s", k))
+        elif r < 0.6:
+            ops.append(("d", k))
+        elif r < 0.9:
+            ops.append((rng.choice("cg"), k))
+        elif r < 0.95:
+            ops.append(("l", 0))
+        else:
+            ops.append(("r", 0))
+    return ops
+
+
 def iface_ranks(kind, wat):
     """runtime.Compare orders interface values by the `comp` table index of their dynamic type first
     (0 for references and nil, then compared by address); read the indices from the program's WAT."""
@@ -232,19 +321,31 @@ def iface_ranks(kind, wat):
 
 
 # ----------------------------------------------------------------------------- program text
-def program(kind, opstr):
-    vt = "int" if kind.vtype == "int" else "string"
-    val = "i" if vt == "int" else "VS[i%%%d]" % len(VS)
-    src = ["package main", "", kind.decls, "var K [%d]%s" % (kind.n, kind.ktype), ""]
-    if vt == "string":
-        src += ["var VS [%d]string" % len(VS), ""]
-    src += ["func initK() {"] + ["\t" + l for l in kind.init]
-    if vt == "string":
-        src += ["\tVS[%d] = %s" % (i, gostr(v.encode())) for i, v in enumerate(VS)]
-    src += ["}", "",
-            "func kid(k %s) int {" % kind.ktype, "\tfor i := 0; i < len(K); i++ {", "\t\tif K[i] == k {", "\t\t\treturn i", "\t\t}", "\t}", "\treturn -1", "}", "",
-            "func hx(c byte) int {", "\tif c >= '0' && c <= '9' {", "\t\treturn int(c - '0')", "\t}", "\treturn int(c-'a') + 10", "}", "",
-            "func main() {", "\tinitK()"]
+HX = "func hx(c byte) int {\n\tif c >= '0' && c <= '9' {\n\t\treturn int(c - '0')\n\t}\n\treturn int(c-'a') + 10\n}\n"
+
+
+def section(kind, opstr, sfx=""):
+    """declarations + `func run<sfx>()` executing the history `opstr` on a fresh map of this kind"""
+    e = kind.elem
+    if e:
+        vt, val, zval, pr = e["vt"], "VV@[1+i%%%d]" % (e["nv"] - 1), "VV@[0]", "vid@(%s)"
+    elif kind.vtype == "int":
+        vt, val, zval, pr = "int", "i", "0", "%s"
+    else:
+        vt, val, zval, pr = "string", "VS@[i%%%d]" % len(VS), "\"\"", "%s"
+    src = [kind.decls.replace("PA", "PA@").replace("SK", "SK@").replace("PT", "PT@") if sfx else kind.decls]
+    init = [l.replace("PA", "PA@").replace("SK", "SK@").replace("K[", "K@[").replace("len(K)", "len(K@)") for l in kind.init]
+    src += ["var K@ [%d]%s" % (kind.n, kind.ktype.replace("SK", "SK@").replace("PT", "PT@") if sfx else kind.ktype), ""]
+    if e:
+        src += [e["decls"], "var VV@ [%d]%s" % (e["nv"], vt), "", "func vid@(v %s) int {" % vt, e["vid"] + "}", ""]
+        init = init + e["init"]
+    elif vt == "string":
+        src += ["var VS@ [%d]string" % len(VS), ""]
+        init = init + ["VS@[%d] = %s" % (i, gostr(v.encode())) for i, v in enumerate(VS)]
+    kt = kind.ktype.replace("SK", "SK@").replace("PT", "PT@") if sfx else kind.ktype
+    src += ["func initK@() {"] + ["\t" + l for l in init] + ["}", "",
+            "func kid@(k %s) int {" % kt, "\tfor i := 0; i < len(K@); i++ {", "\t\tif K@[i] == k {", "\t\t\treturn i", "\t\t}", "\t}", "\treturn -1", "}", "",
+            "func run@() {", "\tinitK@()"]
     # the history is data: op letter + 3 hex digits of the key index
     chunks = [opstr[i:i + 4000] for i in range(0, len(opstr), 4000)] or [""]
     src += ["\tops := \"\""] + ["\tops += \"%s\"" % c for c in chunks]
@@ -254,22 +355,25 @@ def program(kind, opstr):
 		c := ops[i*4]
 		ki := hx(ops[i*4+1])*256 + hx(ops[i*4+2])*16 + hx(ops[i*4+3])
 		if c == 's' {
-			m[K[ki]] = %(val)s
+			m[K@[ki]] = %(val)s
+			println(len(m))
+		} else if c == 'z' {
+			m[K@[ki]] = %(zval)s
 			println(len(m))
 		} else if c == 'g' {
-			println(m[K[ki]])
+			println(%(prg)s)
 		} else if c == 'c' {
-			v, ok := m[K[ki]]
-			println(v, ok)
+			v, ok := m[K@[ki]]
+			println(%(prv)s, ok)
 		} else if c == 'd' {
-			delete(m, K[ki])
+			delete(m, K@[ki])
 			println(len(m))
 		} else if c == 'l' {
 			println(len(m))
 		} else if c == 'r' {
 			println("R")
 			for k, v := range m {
-				println(kid(k), v)
+				println(kid@(k), %(prv)s)
 			}
 			println("E")
 		} else if c == 'n' {
@@ -278,8 +382,18 @@ def program(kind, opstr):
 		}
 	}
 }
-""" % {"kt": kind.ktype, "vt": vt, "val": val}]
-    return "\n".join(src)
+""" % {"kt": kt, "vt": vt, "val": val, "zval": zval, "prg": pr % "m[K@[ki]]", "prv": pr % "v"}]
+    return "\n".join(src).replace("@", sfx)
+
+
+def program(kind, opstr):
+    return "package main\n\n" + section(kind, opstr) + "\n" + HX + "\nfunc main() {\n\trun()\n}\n"
+
+
+def bundle_program(sections):
+    """several sections in one program; the output of section i follows the marker line `P<i>`"""
+    body = "".join("\tprintln(\"P%d\")\n\trun_%d()\n" % (i, i) for i in range(len(sections)))
+    return "package main\n\n" + "\n".join(sections) + "\n" + HX + "\nfunc main() {\n" + body + "}\n"
 
 
 def enc(ops):
@@ -362,7 +476,7 @@ def final_sweep(kind, ops):
     """observe everything the history touched: len, range, comma-ok of every touched key"""
     touched = []
     for o, k in ops:
-        if o in "sdgc" and kind.canon[k] not in touched:
+        if o in "szdgc" and kind.canon[k] not in touched:
             touched.append(kind.canon[k])
     return [("l", 0), ("r", 0)] + [("c", k) for k in touched[:300]]
 
@@ -373,8 +487,8 @@ def expected(kind, ops, base):
     d, out = {}, []
     for j, (o, k) in enumerate(ops):
         c = kind.canon[k]
-        if o == "s":
-            d[c] = base + j; out.append(("n", len(d)))
+        if o in "sz":
+            d[c] = kind.setval(o, base + j); out.append(("n", len(d)))
         elif o == "d":
             d.pop(c, None); out.append(("n", len(d)))
         elif o == "l":
@@ -398,7 +512,7 @@ def parse_output(kind, ops, lines):
             out.append(None); continue
         try:
             l = lines[p]
-            if o in "sdl":
+            if o in "szdl":
                 out.append(("n", int(l))); p += 1
             elif o == "g":
                 out.append(("v", l)); p += 1
@@ -443,8 +557,8 @@ def mirror_run(ctx, model, kind, ops, base, variant, safe=False):
     lines, tags = ["new " + variant], [("new", -1)]
     for j, (o, k) in enumerate(ops):
         r = kind.rank[k]
-        if o == "s":
-            lines.append("set %d %d" % (r, base + j)); tags.append(("op", j))
+        if o in "sz":
+            lines.append("set %d %d" % (r, kind.setval(o, base + j))); tags.append(("op", j))
             lines.append("check"); tags.append(("check", j))
         elif o == "d":
             lines.append("shape %d" % r); tags.append(("shape", j))
@@ -475,7 +589,7 @@ def mirror_run(ctx, model, kind, ops, base, variant, safe=False):
                 obs[j] = None
             elif l == "skip":
                 info[j]["skipped"] = True; obs[j] = ("skip",)
-            elif o in "sdl":
+            elif o in "szdl":
                 obs[j] = ("n", int(l))
             elif o in "gc":
                 v, _, ok = l.partition(" ")
@@ -554,10 +668,18 @@ class Prog:
         # cls (one letter per history): 'A' long, two-child deletes filtered out on the pinned runtime / 'B' short, unfiltered / 'P' probe
         self.tag, self.kind, self.hists, self.cls = tag, kind, hists, cls if len(cls) == len(hists) else cls * len(hists)
         self.mobs, self.minfo = [], []
+        self.t_wa = self.t_go = 0.0
 
 
-def prepare(ctx, model, warun, prog, variant):
-    """fix the ranks (iface), adapt the histories to the variant, compute the mirror's answers, write the program"""
+class Unit:
+    """one source file: a single Prog, or a bundle of Progs (sections run_0, run_1, ... separated by marker lines)"""
+
+    def __init__(self, tag, progs):
+        self.tag, self.progs = tag, progs
+
+
+def prepare_ops(ctx, model, warun, prog, variant):
+    """fix the ranks (iface), adapt the histories to the variant (needs the model only on the pinned runtime), lay out the program"""
     kind = prog.kind
     d = os.path.join(ctx.tmp, prog.tag)
     os.makedirs(d, exist_ok=True)
@@ -570,23 +692,17 @@ def prepare(ctx, model, warun, prog, variant):
         if err:
             raise vlib.InfraError("C13: cannot read the comp table of the interface-key program: " + err)
     final, base = [], 0
-    mvar = "pinned" if variant == "pinned" else "fixed"
     for h, hcls in zip(prog.hists, prog.cls):
         ops = list(h)
-        if kind.rank is not None and model:
-            if variant == "pinned" and hcls == "A":
-                _, info = mirror_run(ctx, model, kind, ops, base, mvar, safe=True)
+        if kind.rank is not None and variant == "pinned":
+            if hcls == "A":
+                _, info = mirror_run(ctx, model, kind, ops, base, "pinned", safe=True)
                 ops = [("c", k) if (o == "d" and info[j]["skipped"]) else (o, k) for j, (o, k) in enumerate(ops)]
-            elif variant == "pinned":
-                obs, _ = mirror_run(ctx, model, kind, ops, base, mvar)
+            else:
+                obs, _ = mirror_run(ctx, model, kind, ops, base, "pinned")
                 stop = next((j for j, ob in enumerate(obs) if ob is None), len(ops))
                 ops = ops[:stop]
         ops += final_sweep(kind, ops)
-        if kind.rank is not None and model:
-            obs, info = mirror_run(ctx, model, kind, ops, base, mvar)
-        else:
-            obs, info = [None] * len(ops), [dict(two=False, check="", skipped=False) for _ in ops]
-        prog.mobs.append(obs); prog.minfo.append(info)
         final.append((base, ops))
         base += len(ops) + 1
     prog.final = final
@@ -595,28 +711,68 @@ def prepare(ctx, model, warun, prog, variant):
         assert b == len(allops)
         allops += ops + [("n", 0)]
     prog.allops = allops
-    src = program(kind, enc(allops))
-    with open(os.path.join(d, "main.go"), "w") as f:
-        f.write(src)
-    with open(os.path.join(d, "prog.wa.go"), "w") as f:
-        f.write(src)
-    prog.src = src
 
 
-def execute(ctx, warun, prog, timeout):
+def mirror_obs(ctx, model, prog, variant):
+    """the Lean transcription's answers (and monitored invariants) for the final histories"""
+    kind = prog.kind
+    mvar = "pinned" if variant == "pinned" else "fixed"
+    for base, ops in prog.final:
+        if kind.rank is not None and model:
+            obs, info = mirror_run(ctx, model, kind, ops, base, mvar)
+        else:
+            obs, info = [None] * len(ops), [dict(two=False, check="", skipped=False) for _ in ops]
+        prog.mobs.append(obs); prog.minfo.append(info)
+
+
+def write_unit(ctx, unit):
+    d = os.path.join(ctx.tmp, "u_" + unit.tag)
+    os.makedirs(d, exist_ok=True)
+    unit.dir = d
+    if len(unit.progs) == 1:
+        src = program(unit.progs[0].kind, enc(unit.progs[0].allops))
+    else:
+        src = bundle_program([section(p.kind, enc(p.allops), "_%d" % i) for i, p in enumerate(unit.progs)])
+    for fn in ("main.go", "prog.wa.go"):
+        with open(os.path.join(d, fn), "w") as f:
+            f.write(src)
+    unit.src = src
+    for p in unit.progs:
+        p.src = src
+
+
+def split_sections(unit, lines):
+    """output lines of each section of a bundle (marker lines P0, P1, ...)"""
+    if len(unit.progs) == 1:
+        return [lines]
+    out, cur = [[] for _ in unit.progs], -1
+    for l in lines:
+        if cur + 1 < len(unit.progs) and l == "P%d" % (cur + 1):
+            cur += 1
+        elif cur >= 0:
+            out[cur].append(l)
+    return out
+
+
+def exec_wa(ctx, warun, unit, timeout):
     import time
     t0 = time.time()
-    wst, wl, werr = run_wa(warun, os.path.join(prog.dir, "prog.wa.go"), timeout)
-    prog.t_wa = time.time() - t0
+    wst, wl, werr = run_wa(warun, os.path.join(unit.dir, "prog.wa.go"), timeout)
+    for p, ls in zip(unit.progs, split_sections(unit, wl)):
+        p.t_wa, p.wst, p.werr = time.time() - t0, wst, werr
+        p.wobs = parse_output(p.kind, p.allops, ls)
+
+
+def exec_go(ctx, unit, timeout):
+    import time
     t0 = time.time()
-    gst, gl, gerr = run_go(prog.dir, timeout)
-    prog.t_go = time.time() - t0
-    prog.wst, prog.werr, prog.gst, prog.gerr = wst, werr, gst, gerr
-    prog.wobs = parse_output(prog.kind, prog.allops, wl)
-    prog.gobs = parse_output(prog.kind, prog.allops, gl)
+    gst, gl, gerr = run_go(unit.dir, timeout)
+    for p, ls in zip(unit.progs, split_sections(unit, gl)):
+        p.t_go, p.gst, p.gerr = time.time() - t0, gst, gerr
+        p.gobs = parse_output(p.kind, p.allops, ls)
 
 
-OPNAME = {"s": "set", "d": "delete", "g": "lookup", "c": "comma-ok", "l": "len", "r": "range", "n": "new"}
+OPNAME = {"s": "set", "z": "set-zero", "d": "delete", "g": "lookup", "c": "comma-ok", "l": "len", "r": "range", "n": "new"}
 
 
 def judge(ctx, prog, stats):
@@ -633,7 +789,7 @@ def judge(ctx, prog, stats):
         for j, (o, k) in enumerate(ops):
             c = kind.canon[k]
             was_present = c in present
-            if o == "s":
+            if o in "sz":
                 present.add(c)
             elif o == "d":
                 present.discard(c)
@@ -653,14 +809,18 @@ def judge(ctx, prog, stats):
                        "two_child_delete_at": two_at, "mirror_says": repr(mob[j])[:300]}
                 what = "%s keys: %s of key %r after %d ops: Wa gives %s, a finite map gives %s" % (
                     kind.name, OPNAME[o], kind.eq[k], j, repr(wob[j])[:120] if wob[j] else "no output (%s)" % prog.wst, repr(exp[j])[:120])
+                if kind.elem:
+                    what = "map[%s]%s (element kind %s; values are printed as indices into the value table, 0 = the ZERO value): %s" % (
+                        kind.ktype, kind.elem["vt"].replace("@", ""), kind.elem["name"], what)
                 if hasattr(kind, "vkey"):
                     key = kind.vkey
                 elif two_at is not None:
                     key = "delete:two-children"
                     what += " (first delete of a node with two children at op %d: key %r)" % (two_at, kind.eq[ops[two_at][1]])
+                elif kind.elem:
+                    key = "map-elem:%s:%s-wrong" % (kind.elem["name"], OPNAME[o]) if wob[j] else "map-elem:%s:crash" % kind.elem["name"]
                 else:
                     key = "map:%s:%s-wrong" % (kind.ktype, OPNAME[o]) if wob[j] else "map:%s:crash" % kind.ktype
-                path = os.path.join(vlib.VERIF, "replays", PROP)
                 rep["program_text"] = prog.src if len(prog.src) < 60000 else prog.src[:60000]
                 ctx.violation(key, what, rep)
                 stats["diverged"] += 1
@@ -691,8 +851,8 @@ def judge(ctx, prog, stats):
             b = size.bit_length()
             if o == "d":
                 cl = ("delete", "absent" if not was_present else "two" if info[j]["two"] else "leaf-or-one", b)
-            elif o == "s":
-                cl = ("set", "overwrite" if was_present else "new", b)
+            elif o in "sz":
+                cl = (OPNAME[o], "overwrite" if was_present else "new", b)
             elif o in "gc":
                 cl = (OPNAME[o], "hit" if c in present else "miss", b)
             else:
@@ -739,23 +899,30 @@ def load_corpus():
 
 
 def run(ctx):
-    warun = build_private(ctx, "warun")
-    variant = source_variant()
-    ctx.notes.append("map.wa delete variant: " + variant)
     import time
-    t0 = time.time()
-    ctx.prove(required=REQUIRED)
-    model = ctx.build_model("c13")
-    t_lean = time.time() - t0
     quick = ctx.tier == "quick"
     rng = ctx.rng
-    progs = []
+    variant = source_variant()
+    ctx.notes.append("map.wa delete variant: " + variant)
+    tl = {}
+
+    def lean():
+        t0 = time.time()
+        ctx.prove(required=REQUIRED)
+        m = ctx.build_model("c13")
+        tl["lean"] = time.time() - t0
+        return m
+
+    pool = cf.ThreadPoolExecutor(16)
+    lean_f = pool.submit(lean)                      # proofs + model driver build run beside harness build, generation and execution
+    warun = build_private(ctx, "warun")
+    progs, units = [], []
     # 1. corpus (fixed regression histories on int keys K[i] = i), among them the Lean witness
     corpus = load_corpus()
     if corpus:
         n = max(c[1] for c in corpus)
         progs.append(Prog("corpus", make_kind("seq", rng, n), [c[2] for c in corpus], "B"))
-    # 2. generated histories
+    # 2. generated histories, key kinds (element type int / string)
     kinds = ["int", "string", "float64", "struct", "pointer", "iface", "int64", "uint32", "uint8", "intstr", "bool"]
     rounds = 1 if quick else 6
     for rd in range(rounds):
@@ -776,15 +943,38 @@ def run(ctx):
             h = [(rng.choice("ssgcl"), rng.randrange(k.n)) for _ in range(40)] + [("r", 0)]
             hs.append(h)
         progs.append(Prog("probe-" + k.name, k, hs, "P"))
+    units += [Unit(p.tag, [p]) for p in progs]
+    # 3. element kinds: every element type, with the ZERO value stored / overwritten deterministically (elem_history), bundled
+    #    several sections per program (compile time dominates these short histories)
+    eprogs = []
+    for rd in range(rounds):
+        for ename in ELEMS:
+            for keys in (["int"] if (quick and ename not in ("iface", "error", "pointer")) else ["int", "string"]):
+                k = make_elem_kind(ename, rng, keys)
+                hs = [elem_history(k, rng, 60 if quick else 400) for _ in range(2 if quick else 6)]
+                eprogs.append(Prog("%s-%d" % (k.name, rd), k, hs, "B"))
+    per = 6
+    for i in range(0, len(eprogs), per):
+        units.append(Unit("elems-%d" % (i // per), eprogs[i:i + per]))
+    progs += eprogs
     stats = {"ops": 0, "mirror_lines": 0, "checks": 0, "diverged": 0, "classes": set(), "dist": {}, "range_entries": 0, "max_size": 0, "variant": variant}
     t0 = time.time()
-    with cf.ThreadPoolExecutor(14) as ex:
-        list(ex.map(lambda p: prepare(ctx, model, warun, p, variant), progs))
-        t_prep = time.time() - t0
-        t0 = time.time()
-        list(ex.map(lambda p: execute(ctx, warun, p, 240 if quick else 900), progs))
-    ctx.notes.append("timing: lean build+audit %.0fs, mirror/prepare %.0fs, wa+go execution %.0fs (slowest wa %.0fs, slowest go %.0fs)" % (
-        t_lean, t_prep, time.time() - t0, max(p.t_wa for p in progs), max(p.t_go for p in progs)))
+    model = lean_f.result() if variant == "pinned" else None     # only the pinned runtime needs the model to lay out the histories
+    list(pool.map(lambda p: prepare_ops(ctx, model, warun, p, variant), progs))
+    list(pool.map(lambda u: write_unit(ctx, u), units))
+    tmo = 300 if quick else 1200
+    # longest first; Wa and Go runs of the same program are separate tasks
+    order = sorted(units, key=lambda u: -sum(len(p.allops) for p in u.progs))
+    futs = [pool.submit(exec_wa, ctx, warun, u, tmo) for u in order] + [pool.submit(exec_go, ctx, u, tmo) for u in order]
+    model = lean_f.result()
+    t_prep0 = time.time()
+    list(pool.map(lambda p: mirror_obs(ctx, model, p, variant), progs))
+    t_mirror = time.time() - t_prep0
+    for f in futs:
+        f.result()
+    pool.shutdown()
+    ctx.notes.append("timing: lean build+audit %.0fs (concurrent), mirror %.0fs, generation+execution+mirror %.0fs (slowest wa %.0fs, slowest go %.0fs), %d source files" % (
+        tl.get("lean", 0), t_mirror, time.time() - t0, max(p.t_wa for p in progs), max(p.t_go for p in progs), len(units)))
     for p in progs:
         judge(ctx, p, stats)
     if variant == "unknown":
@@ -799,9 +989,11 @@ def run(ctx):
         "distinct_nontrivial": len(stats["classes"]),
         "rule": "one evaluation = one map operation of a generated history executed by the real runtime and judged against the dict oracle "
                 "(and Go's map, and the Lean transcription when the key ranks are known); distinct_nontrivial = distinct "
-                "(key kind, operation, outcome class [new/overwrite, hit/miss, absent/leaf-or-one-child/two-children], log2 size bucket)",
+                "(key kind or element kind, operation [set / set-zero / ...], outcome class [new/overwrite, hit/miss, absent/leaf-or-one-child/two-children], "
+                "log2 size bucket); element kinds (%s) run a fixed zero-value history: store the zero value, overwrite non-zero with zero and back, "
+                "then comma-ok / lookup / len / range / delete" % ", ".join(ELEMS),
         "samples": samples,
-        "distribution": dict(stats["dist"], programs=len(progs), histories=sum(len(p.final) for p in progs), range_entries=stats["range_entries"],
+        "distribution": dict(stats["dist"], programs=len(units), sections=len(progs), element_kinds=sorted(ELEMS), histories=sum(len(p.final) for p in progs), range_entries=stats["range_entries"],
                              largest_map_ranged=stats["max_size"], mirror_compared_ops=stats["mirror_lines"], monitored_checks=stats["checks"],
                              monitoring={k: v for k, v in stats.items() if k.startswith("check_")}, histories_diverged=stats["diverged"]),
         "source_variant": variant,
